@@ -82,7 +82,22 @@ impl World {
             fs::create_dir_all(root.join(d))?;
         }
         for (rel, body) in &self.files {
-            let p = root.join(rel);
+            // `@RAW:hh@` in a name stands for the byte hh (names that are not UTF-8)
+            let p = if rel.contains("@RAW:") {
+                use std::os::unix::ffi::OsStringExt;
+                let mut bytes: Vec<u8> = Vec::new();
+                let mut rest = rel.as_str();
+                while let Some(k) = rest.find("@RAW:") {
+                    bytes.extend_from_slice(rest[..k].as_bytes());
+                    let hex = rest.get(k + 5..k + 7).unwrap_or("3f");
+                    bytes.push(u8::from_str_radix(hex, 16).unwrap_or(b'?'));
+                    rest = rest.get(k + 8..).unwrap_or("");
+                }
+                bytes.extend_from_slice(rest.as_bytes());
+                root.join(std::ffi::OsString::from_vec(bytes))
+            } else {
+                root.join(rel)
+            };
             if let Some(parent) = p.parent() {
                 fs::create_dir_all(parent)?;
             }
